@@ -106,7 +106,7 @@ func (h obsHook) observe(run func() error) error {
 	w.reqBegin(c)
 	if c.p.outcome == outPanic {
 		c.reqEnd = w.stamp()
-		panic(c.panicVal)
+		c.raise()
 	}
 	err := run()
 	c.l2err = err
